@@ -68,14 +68,19 @@ Definition step_gen (guard : bool) (s : st) (f : frame) : st * Z * list Z :=
   | ProcessMessages =>
       match f with
       | FHel _ _ _ | FAck => (finish s, S_COMM, [])
-      | FOpn renew pv =>
-          (* validate_chunks: the client follows the assigned channel id, so the check passes *)
-          if negb (pv =? hello_pv s) then (s, S_OK, [R_FAULT])
+      | FOpn renew pv0 =>
+          (* validate_chunks: the client follows the assigned channel id, so the check passes.
+             pv0 >= 1000 stands for protocol version pv0 - 1000 in a request whose security mode is
+             Invalid: it is answered with a ServiceFault and issues nothing (an Issue has taken a
+             channel id from the counter by then) *)
+          if negb ((if 1000 <=? pv0 then pv0 - 1000 else pv0) =? hello_pv s) then (s, S_OK, [R_FAULT])
           else if renew then
             if negb (issued s) then (finish s, S_UNEXPECTED, [])
+            else if 1000 <=? pv0 then (s, S_OK, [R_FAULT])
             else (mk_st ProcessMessages (hello_pv s) true (chan s) (last_chan s), S_OK, [R_OPN])
           else
-            (mk_st ProcessMessages (hello_pv s) true (last_chan s + 1) (last_chan s + 1), S_OK, [R_OPN])
+            if 1000 <=? pv0 then (mk_st ProcessMessages (hello_pv s) (issued s) (chan s) (last_chan s + 1), S_OK, [R_FAULT])
+            else (mk_st ProcessMessages (hello_pv s) true (last_chan s + 1) (last_chan s + 1), S_OK, [R_OPN])
       | FMsg kind cid_ok =>
           if negb (chan s =? 0) && negb cid_ok then (finish s, S_CHANNEL, [])
           else if guard && negb (issued s) then (finish s, S_CHANNEL, [])
